@@ -33,6 +33,8 @@ type scenario struct {
 	fr *flow.Rule
 	br *cb.Rule
 	hr *hotspot.Rule
+	// the rule object is listed twice (same pointer) in every load
+	listedTwice bool
 }
 
 func copyFlow(r *flow.Rule) *flow.Rule { x := *r; return &x }
@@ -49,7 +51,8 @@ func copyHot(r *hotspot.Rule) *hotspot.Rule {
 }
 
 func drawScenario(t *rapid.T, c *hx.Case) scenario {
-	s := scenario{module: rapid.IntRange(0, 2).Draw(t, "module")}
+	s := scenario{module: rapid.IntRange(0, 2).Draw(t, "module"), listedTwice: rapid.IntRange(0, 4).Draw(t, "listedTwice") == 0}
+	c.ClassIf(s.listedTwice, "rule-object-listed-twice")
 	switch s.module {
 	case mFlow:
 		r := &flow.Rule{ID: "r", Resource: "a"}
@@ -182,7 +185,11 @@ func (s scenario) apply(t *rapid.T, l layout, first bool) {
 		var onA, all []*flow.Rule
 		for _, id := range ids {
 			if id == "r" {
-				onA = append(onA, copyFlow(s.fr))
+				x := copyFlow(s.fr)
+				onA = append(onA, x)
+				if s.listedTwice { // the very same rule object listed twice: two controllers with independent state
+					onA = append(onA, x)
+				}
 			} else {
 				onA = append(onA, s.inert(id, l.compatible[id]).(*flow.Rule))
 			}
@@ -207,7 +214,11 @@ func (s scenario) apply(t *rapid.T, l layout, first bool) {
 		var onA, all []*cb.Rule
 		for _, id := range ids {
 			if id == "r" {
-				onA = append(onA, copyCb(s.br))
+				x := copyCb(s.br)
+				onA = append(onA, x)
+				if s.listedTwice { // the very same rule object listed twice: two controllers with independent state
+					onA = append(onA, x)
+				}
 			} else {
 				onA = append(onA, s.inert(id, l.compatible[id]).(*cb.Rule))
 			}
@@ -232,7 +243,11 @@ func (s scenario) apply(t *rapid.T, l layout, first bool) {
 		var onA, all []*hotspot.Rule
 		for _, id := range ids {
 			if id == "r" {
-				onA = append(onA, copyHot(s.hr))
+				x := copyHot(s.hr)
+				onA = append(onA, x)
+				if s.listedTwice { // the very same rule object listed twice: two controllers with independent state
+					onA = append(onA, x)
+				}
 			} else {
 				onA = append(onA, s.inert(id, l.compatible[id]).(*hotspot.Rule))
 			}
